@@ -939,6 +939,9 @@ func (m *Machine) binopInt(op token.Token, a, b *Lin, t types.Type, pos token.Po
 			m.rangeObl(r, t, op.String(), pos)
 			return VInt{lin: r}
 		}
+		if m.approxBits {
+			return m.approxInt(t) // effect harnesses: the value of an OR of two symbolic operands is not needed exactly
+		}
 		tz := func(l *Lin) uint { // largest k with 2^k dividing every coefficient
 			k := uint(1 << 20)
 			upd := func(v *big.Int) {
